@@ -37,7 +37,8 @@ Inductive instr :=
 | ICtl (c : Z)           (* control()/line(): self._buffer.append(...) *)
 | ISetRend (fid : Z) (h : nat)   (* LiveRender.set_renderable *)
 | IStart | IStop         (* Live.start / Live.stop: read _started, choose the rest *)
-| ISetStarted (b : bool) | IPushHook | IPopHook.
+| ISetStarted (b : bool) | IPushHook | IPopHook
+| IResetShape.           (* Live.stop: self._live_render._shape = None *)
 
 Record tstate := mkT {
   prog : list instr;
@@ -114,7 +115,7 @@ Definition refresh_seq : list instr :=
 Definition start_rest : list instr :=
   [ICtl 0] ++ check_seq ++ [IPushHook; ISetStarted true].
 Definition stop_rest : list instr :=
-  [ISetStarted false] ++ refresh_seq ++ [ICtl 2] ++ check_seq ++ [IPopHook; ICtl 1] ++ check_seq.
+  [ISetStarted false] ++ refresh_seq ++ [ICtl 2] ++ check_seq ++ [IPopHook; ICtl 1] ++ check_seq ++ [IResetShape].
 
 Definition exec (rep : bool) (t : tid) (s : shared) (ts : tstate) (i : instr) : option (shared * tstate) :=
   (* ts already has the instruction removed from its program *)
@@ -144,6 +145,7 @@ Definition exec (rep : bool) (t : tid) (s : shared) (ts : tstate) (i : instr) : 
   | ISetStarted b => Some (set_started s b, ts)
   | IPushHook => Some (set_hooks s (S (hooks s)), ts)
   | IPopHook => match hooks s with O => None (* IndexError *) | S n => Some (set_hooks s n, ts) end
+  | IResetShape => Some (set_shape s None, ts)
   end.
 
 Definition upd (f : tid -> tstate) (t : tid) (v : tstate) : tid -> tstate :=
